@@ -130,3 +130,71 @@ def microdvd_read_skeleton(c):
 def prove_microdvd_read_skeleton(ctx):
     from pycaption.microdvd import MicroDVDReader as MR
     ctx.prove("microdvd.MicroDVDReader.read", microdvd_read_skeleton, functions=[MR.read], crosscheck=False)
+
+
+# ------------------------------------------------------------------------------------ WebVTTReader.read / _parse
+
+def webvtt_read_skeleton(c, clause="times"):
+    """WebVTTReader.read + _parse as a skeleton: P[n] over documents of one to three cues x what stands before and between
+    them (nothing, a NOTE block, a STYLE block, cue identifiers) x one or two text lines x a last cue with or without a
+    blank line after it x `lang`.  `_parse_timing_line` is a recording stub whose answer names the timing line it was
+    given; `_decode` marks the text it was given.
+
+      * every timing line is parsed once, in order, together with the start of the PREVIOUS cue (0 for the first) - the
+        number the strict ordering test compares with;
+      * cue i carries the start and end (C01; the layout: C12) returned for ITS OWN timing line and the decoded lines below it, in order;
+        comment blocks, style blocks and cue identifiers are no cue text; the last cue is kept without a closing blank line;
+      * one language, the one asked for; a second document read with the same reader gives what a fresh reader gives."""
+    from pycaption.webvtt import WebVTTReader as WR
+    n = c.pick("cues", [1, 2, 3])
+    between = c.pick("before_each_cue", ["nothing", "NOTE block", "STYLE block", "identifier"])
+    two = c.pick("two_text_lines", [False, True])
+    closed = c.pick("blank_line_after_the_last_cue", [True, False])
+    lang = c.pick("lang", [None, "de"])
+    lines, timing = ["WEBVTT", ""], []
+    for k in range(n):
+        if between == "NOTE block":
+            lines += ["NOTE a comment", "over two lines", ""]
+        elif between == "STYLE block":
+            lines += ["STYLE", "::cue { color: red }", ""]
+        elif between == "identifier":
+            lines += [f"cue id {k}"]
+        t = f"00:0{k + 1}.000 --> 00:0{k + 1}.500 line:{k}"
+        timing.append(t)
+        lines += [t, f"text {k}a"] + ([f"text {k}b"] if two else [])
+        if k < n - 1 or closed:
+            lines.append("")
+    doc = "\n".join(lines)
+    rd = c.new(WR, ignore_timing_errors=True, time_shift_microseconds=0)
+    log = []
+    val = lambda t_: int("".join(ch for ch in t_.split("-->")[0] if ch.isdigit()))
+
+    def timing_stub(interp, fn, a, kw):
+        x = N(fn, a, kw)
+        log.append((x["line"], x["last_start_time"]))
+        return val(x["line"]), val(x["line"]) + 500, ("layout of", x["line"])
+    c.interp.contracts["pycaption.webvtt:WebVTTReader._parse_timing_line"] = timing_stub
+    c.interp.contracts["pycaption.webvtt:WebVTTReader._decode"] = lambda interp, fn, a, kw: "<" + N(fn, a, kw)["s"] + ">"
+    kw = {} if lang is None else {"lang": lang}
+    want_lang = lang or "en-US"
+    for turn in (1, 2):
+        del log[:]
+        r = c.call(WR.read, rd, doc, compare=False, **kw)
+        caps = r.get_captions(want_lang)
+        c.ensure(f"read{turn}/one_language_the_one_asked_for", r.get_languages() == [want_lang])
+        c.ensure(f"read{turn}/every_timing_line_parsed_once_in_order_with_the_previous_cues_start",
+                 log == [(t_, 0 if k == 0 else val(timing[k - 1])) for k, t_ in enumerate(timing)])
+        if clause == "layout":
+            # (C12: the cue settings of a timing line belong to the cue below that line)
+            c.ensure(f"read{turn}/cue_i_has_the_layout_of_its_own_timing_line", [x.layout_info for x in caps] == [("layout of", t_) for t_ in timing])
+            continue
+        c.ensure(f"read{turn}/cue_i_has_the_times_of_its_own_timing_line",
+                 [(x.start, x.end) for x in caps] == [(val(t_), val(t_) + 500) for t_ in timing])
+        c.ensure(f"read{turn}/cue_i_has_the_decoded_lines_below_its_timing_line_and_nothing_else",
+                 [x.get_text() for x in caps] == [f"<text {k}a>" + (f"\n<text {k}b>" if two else "") for k in range(n)])
+
+
+def prove_webvtt_read_skeleton(ctx, clause="times"):
+    from pycaption.webvtt import WebVTTReader as WR
+    ctx.prove("webvtt.WebVTTReader.read+_parse" + ("" if clause == "times" else "[layout]"), lambda c: webvtt_read_skeleton(c, clause),
+              functions=[WR.read, WR._parse], crosscheck=False)
